@@ -421,9 +421,20 @@ func (l expLoad) String() string { return fmt.Sprintf("%s%v%v", l.kind, l.keys, 
 
 // applyLoads applies the outcome of every observed loader call, in order: a supplied value is
 // installed, a not-found answer to a reload removes the entry, an error changes nothing.
-func (m *Model) applyLoads(loads []LoadCall, hooks []CalcCall) []expEvent {
+func (m *Model) applyLoads(loads []LoadCall, allHooks []CalcCall) []expEvent {
 	var evs []expEvent
-	for _, lc := range loads {
+	for li, lc := range loads {
+		// the calculator calls that belong to this loader call's outcome: from its entry up to the next loader entry
+		hooks := allHooks
+		if len(loads) > 1 {
+			hooks = nil
+			for _, h := range allHooks {
+				if li > 0 && h.At < lc.Enter || li+1 < len(loads) && h.At >= loads[li+1].Enter {
+					continue
+				}
+				hooks = append(hooks, h)
+			}
+		}
 		if lc.Err == "loaderr" || lc.Err == "panic" {
 			for _, k := range lc.Keys {
 				m.applyHooks(k, hooksFor(hooks, k))
